@@ -153,6 +153,16 @@ func genMalformed(r *rand.Rand, thorough bool, emit func(c, cat string)) {
 					}
 				}
 			}
+			if kind == "udp" && r.Intn(4) == 0 { // datagrams larger than the usual 512..2048: a padded valid query, or garbage
+				if r.Intn(2) == 0 {
+					b = buildPaddedQuery(uint16(r.Intn(65536)), wireLabels([]byte("ok"), []byte("bigdatagram")), 1, 2100+r.Intn(20000))
+					cat = "bigvalid"
+				} else {
+					b = make([]byte, 2049+r.Intn(30000))
+					r.Read(b)
+					cat = "bigrandom"
+				}
+			}
 			via := "-"
 			if kind == "http" || kind == "https" || kind == "fasthttp" {
 				via = []string{"get", "post"}[r.Intn(2)]
